@@ -127,8 +127,10 @@ class _ExactLanguageSearch:
                 parser, item, translated[i], parsed, need_relative_base
             )
             if parsed_item["date_obj"]:
-                parsed.append((parsed_item, is_relative))
-                substrings.append(original[i].strip(" .,:()[]-'"))
+                substring = original[i].strip(" .,:()[]-'")
+                if substring:
+                    parsed.append((parsed_item, is_relative))
+                    substrings.append(substring)
                 continue
 
             possible_splits = self.split_if_not_parsed(item, original[i])
@@ -159,7 +161,7 @@ class _ExactLanguageSearch:
                 possible_parsed, possible_substrings
             )
             for k in range(len(parsed_best)):
-                if parsed_best[k][0]["date_obj"]:
+                if parsed_best[k][0]["date_obj"] and substrings_best[k]:
                     parsed.append(parsed_best[k])
                     substrings.append(substrings_best[k])
         return parsed, substrings
